@@ -2,6 +2,7 @@
   SparseV.Lemmas.NoInternal — the error classes the model operations can produce (property C18):
   none of them produces `Err.internal`; each produces only the class of clean rejections named here.
 -/
+import SparseV.Lemmas.Reduce
 import SparseV.Model.Elemwise
 import SparseV.Model.Reduce
 import SparseV.Model.Getitem
@@ -20,9 +21,8 @@ theorem ite_pure_ne_error {β : Type} (c : Prop) [Decidable c] (a b : β) (e : E
 theorem bshape2_error (s1 s2 : List Nat) (r : Bool) (e : Err) (h : bshape2 s1 s2 r = .error e) : e = Err.value := by
   unfold bshape2 at h
   simp only [] at h
-  split at h
-  · cases h
-  · cases h; rfl
+  repeat' split at h
+  all_goals first | (cases h; rfl) | cases h
 
 theorem foldlM_error {β γ : Type} (f : β → γ → Except Err β) (hf : ∀ b c e, f b c = .error e → e = Err.value) :
     ∀ (l : List γ) (b : β) (e : Err), l.foldlM f b = .error e → e = Err.value
@@ -82,15 +82,10 @@ theorem broadcastTo_error {α : Type} (x : COO α) (s : List Nat) (e : Err) (h :
 
 theorem reduceCore_error (op : RedOp) (x : COO Int) (axes : Option (List Nat)) (kd : Bool) (e : Err)
     (h : reduceCore op x axes kd = .error e) : e = Err.value := by
-  unfold reduceCore at h
+  rw [reduceCore_eq] at h
   simp only [] at h
-  by_cases hc : op.ap x.fill x.fill ≠ x.fill ∧ op.super?.isNone = true
-  · rw [if_pos hc] at h
-    cases h; rfl
-  · rw [if_neg hc] at h
-    exfalso
-    revert h
-    split <;> exact fun h => ite_pure_ne_error _ _ _ _ h
+  repeat' split at h
+  all_goals first | (cases h; rfl) | cases h
 
 theorem reduce_error (op : RedOp) (x : COO Int) (axes : Option (List Int)) (kd : Bool) (e : Err)
     (h : reduce op x axes kd = .error e) : e = Err.value := by
